@@ -181,11 +181,21 @@ class Call(object):
     pass
 
 
-def build_call(case):
+def build_call(case, _built=None):
     import EoN
     c = Call()
     sim = case['sim']
-    G, lab = gen.build_graph(case['graph'])
+    if _built is not None:
+        G, lab = _built
+    elif case.get('prehistory'):
+        # the simulator has been used before on this very graph object, which was then edited in place
+        def warmup(G0, lab0):
+            c0 = build_call(dict(case, prehistory=None, graph=dict(case['graph'], edges=case['prehistory']['prev_edges'])), _built=(G0, lab0))
+            simcase.seed_all(case['seed'] + 99)
+            c0.f(*c0.args, **c0.kw)
+        G, lab = gen.build_graph_with_history(case['graph'], case['prehistory'], warmup)
+    else:
+        G, lab = gen.build_graph(case['graph'])
     n = case['graph']['n']
     c.G, c.lab, c.n, c.sim = G, lab, n, sim
     c.tmin, c.tmax = case.get('tmin', 0), tmax_of(case)
@@ -342,6 +352,10 @@ def random_sim_case(r, sim, nmax=14, tmaxes=None):
             case['tmax'] = case['tmin'] + 4
     if sim in GENERIC_SIMS and r.random() < 0.25:
         case['ic_extra'] = True
+    if r.random() < 0.12:
+        ph = gen.make_prehistory(r, case['graph'])
+        if ph:
+            case['prehistory'] = ph
     if r.random() < 0.25:
         case['sim_kwargs'] = r.choice(['tex', 'pos'])       # keyword arguments for the Simulation_Investigation object (ignored without full data)
     if sim == 'Gillespie_simple_contagion' and case['tmax'] == 'inf':
